@@ -1,0 +1,6 @@
+//go:build !verif
+
+package common
+
+// VerifPoint is a no-op unless built with the "verif" tag.
+func VerifPoint(string) {}
